@@ -302,6 +302,9 @@ func checkC07(c *Ctx) {
 		c.Check(ok, "R4", "OnHostReplace resets all connections", fn.Pos(), "resetAllClients called", "replacing all hosts does not reset the backend connections")
 	}
 	c.Expect("R4", 5)
+	// the redirect and cluster-down callbacks (shared with C04.R3): every recognised redirection and every cluster-down
+	// path reaches the trigger, whatever happens to the resend
+	c.withAlias(map[string]string{"R3": "R4", "R1": "", "R2": "", "R4": "", "R5": "", "R6": "", "R7": "", "R8": "", "R9": ""}, func() { checkC04(c) })
 
 	// ---------------- R5
 	loop := p.Func(redisPkg, "(*upstream).loopRefreshSlots")
